@@ -280,6 +280,9 @@ __strpd_card(struct strpd_s *d, const char *sp, struct dt_spec_s s, char **ep)
 		if (LIKELY(!s.bizda)) {
 			d->d = padstrtoi_lim(sp, &sp, 0, 31);
 			res = 0 - (d->d < 0);
+			/* the slot holds a day of the month again, should
+			 * a day of the year have been in there before */
+			d->flags.d_dcnt_p = 0;
 		} else {
 			d->b = strtoi_lim(sp, &sp, 0, 23);
 			res = 0 - (d->b < 0);
